@@ -8,8 +8,11 @@ message kind enumerated over the four consensus message kinds, views symbolic u6
 Obligations: the invariant is re-established; an old entry disappears iff the new request is validly signed, of the
 same (sender, kind) and of strictly higher view; the new request is appended iff validly signed and no pending entry
 of its class has an equal or higher view; survivors keep their relative order; `Receiver::recv` returns the front.
-Each `send` is one critical section under the watch lock (concurrent senders are serialised by it — assumed).
-Part 2 (replica vote caches) is checked with the replica handlers under C03/C05 obligations when available.
+Concurrent senders: a second complete send() by another sender is interleaved at the entry of the critical section
+(send_modify) — everything a sender read before that point may be stale; the invariant must still hold afterwards.
+Part 2 (replica vote caches): one step of the real on_commit / on_timeout handlers from an arbitrary state with small
+caches satisfying the cache invariant (props/replica_checks.py): <= 1 view entry per validator, certificates under
+construction only for views some validator is voting in.
 """
 import itertools, time
 import z3
@@ -20,7 +23,7 @@ from mirsym.mk import Mk, fld
 from framework import Obligation, Violation
 import replay
 from props.c11 import panic_key
-from props import c02, c04
+from props import c02, c04, coro
 
 PROP = 'C16'
 V = c02.V
@@ -67,10 +70,24 @@ def install(ex, db):
     ex.model(r'zksync_consensus_roles::validator::keys::signature::Signature::verify_msg', verify_msg)
     ex.user_models.insert(0, ex.user_models.pop())
     ex._um_cache = {}
-    ex.model(r'(tokio|zksync_concurrency)::sync::watch::Sender::<.*>::send_modify::<.*>', lambda e, n, a: (e.call_closure(a[1], [Ref(M.deref_all_cell(a[0]))]), UNIT)[1])
+    def send_modify(e, n, a):
+        st = getattr(e, 'c16', None)
+        if st is not None and st.get('interfere') and not st.get('done'):
+            st['done'] = True
+            if e.choose(2, 'interference') == 0:
+                # another sender completes a whole send() between this sender's last shared read and its critical section
+                kind = KINDS[e.choose(len(KINDS), 'kind_other')]
+                other, ok_, ov, osig = mk_req(e, db, 'other', kind)
+                st['other'] = (other, ok_, kind, ov, osig)
+                e.call_key(st['send_key'], [Ref(Cell(st['sender'])), other])
+        e.call_closure(a[1], [Ref(M.deref_all_cell(a[0]))])
+        return UNIT
+    ex.model(r'(tokio|zksync_concurrency)::sync::watch::Sender::<.*>::send_modify::<.*>', send_modify)
+    ex.model(r'(tokio|zksync_concurrency)::sync::watch::Sender::<.*>::borrow', lambda e, n, a: coro.WatchRef(M.deref_all(a[0])))
+    ex.model(r'<(tokio|zksync_concurrency)::sync::watch::Ref<.*> as std::ops::Deref>::deref', lambda e, n, a: Ref(M.deref_all(a[0]).watch.cell))
 
 
-def check_send(rep, db, K, tier):
+def check_send(rep, db, K, tier, interfere=False):
     ex = Exec(db, loop_bound=4 * K + 12)
     install(ex, db)
     mkc = Mk(db, 'zksync_consensus_network')
@@ -96,8 +113,11 @@ def check_send(rep, db, K, tier):
         watch = M.WatchV(buf)
         shared = BoxV(Agg('adt', 'Shared', 0, [watch]))
         sender = build_sender(self_t, shared, fn_filter, fn_select)
+        ex.c16 = dict(interfere=interfere, send_key=send_key, sender=sender)
         ex.call_key(send_key, [Ref(Cell(sender)), new])
         post = list(watch.cell.v.items)
+        if interfere:
+            return olds, (new, nk, kind, nv, nsig), post, ex.c16.get('other')
         return olds, (new, nk, kind, nv, nsig), post
     res = explore(ex, body, budget_s=900 if tier == 'quick' else 3000)
     rep.absorb_stats(ex.stats)
@@ -106,6 +126,20 @@ def check_send(rep, db, K, tier):
         if kind_ == 'panic':
             st, m = solve(pc, None)
             if st == 'sat': viol.append((panic_key(val), f'Sender::send panics: {val[0]} at {val[1]}', m, None))
+            continue
+        if interfere:
+            olds, (new, nk, nkind, nv, nsig), post, other = val
+            if other is None: continue
+            rep.nontrivial += 1
+            # invariant after two overlapping sends: still at most one pending request per (sender, kind)
+            allr = [(o[0], o[1], o[2]) for o in olds] + [(new, nk, nkind), (other[0], other[1], other[2])]
+            info = {id(r): (k, kd) for r, k, kd in allr}
+            pres = [info[id(x)] for x in post if id(x) in info]
+            conds = [z3.Not(z3.And(pres[i][0] == pres[j][0], z3.BoolVal(pres[i][1] == pres[j][1]))) for i in range(len(pres)) for j in range(i + 1, len(pres))]
+            st, m = solve(pc, z3.Not(z3.And(*conds)) if conds else z3.BoolVal(False))
+            if st == 'sat':
+                viol.append(('queue-concurrent-send', f'two overlapping sends leave more than one pending request for one (sender, kind): the decision is not taken inside the critical section (K={K})', m, None))
+            elif st != 'unsat': raise Unmodelled('solver unknown')
             continue
         olds, (new, nk, nkind, nv, nsig), post = val
         rep.nontrivial += 1
@@ -269,6 +303,22 @@ def run(rep, db, tier, seed):
             rep.samples.append(f'K={K}: {n} feasible paths of Sender::send with the real bft filter/selection functions')
         except Unmodelled as u:
             rep.add(Obligation(f'send from an arbitrary {K}-entry buffer', 'inconclusive', str(u)[:600]))
+    for K in ([0, 1] if tier == 'quick' else [0, 1, 2]):
+        t0 = time.time()
+        try:
+            viol, n = check_send(rep, db, K, tier, interfere=True)
+            for key, text, m, shape in viol:
+                if key in seen: continue
+                seen[key] = 1
+                rep.violation(Violation(PROP, key, text + ' | ' + witness_text(m), None, None))
+            rep.add(Obligation(f'two overlapping sends (interference at the critical section), {K}-entry buffer', 'violated' if viol else 'discharged', paths=n, wall_s=round(time.time() - t0, 1)))
+        except Unmodelled as u:
+            rep.add(Obligation(f'two overlapping sends, {K}-entry buffer', 'inconclusive', str(u)[:600]))
+    try:
+        from props import replica_checks as RC
+        RC.run_all(rep, db, tier, ('C16',), handlers=('on_commit', 'on_timeout'), mode='caches')
+    except Unmodelled as u:
+        rep.add(Obligation('replica vote caches', 'inconclusive', str(u)[:500]))
     try:
         viol, n = check_recv(rep, db)
         for key, text, m in viol:
